@@ -131,10 +131,13 @@ package discovery
 //@   safety
 //@   requires s != nil
 //@   modifies s.disabledEndpoints[all]
+// the filter in force for an endpoint: an override by name, else by URL, else the endpoint's own
+//@ spec func effFilter(s *ModelDiscoveryService, e *domain.Endpoint) *domain.FilterConfig = ite(has(s.endpointFilters, e.Name), s.endpointFilters[e.Name], ite(has(s.endpointFilters, e.URLString), s.endpointFilters[e.URLString], e.ModelFilter))
 //@ func (s *ModelDiscoveryService) getEndpointFilterConfig
-//@   property C20
+//@   property C20 C10
 //@   safety
 //@   requires s != nil && endpoint != nil
+//@   ensures res == effFilter(s, endpoint)
 
 //@ func (s *ModelDiscoveryService) handleDiscoveryError
 //@   property C20
@@ -142,17 +145,40 @@ package discovery
 //@   requires s != nil && endpoint != nil
 //@   modifies s.disabledEndpoints[all]
 
-//@ func (s *ModelDiscoveryService) applyModelFilter
-//@   property C20
-//@   safety
-//@   requires s != nil && s.modelFilter != nil
-//@   modifies *
-//@   ensures regCalls == old(regCalls)
+// ---- C10: the listing that reaches the registry is the backend's listing restricted to the names that pass the
+// endpoint's filter (passes: internal/adapter/filter). The name extractor handed to the filter is the model's Name.
+//@ spec func itemName(x interface{}) string = ite(typeis(x, "*domain.ModelInfo"), asType(x, "*domain.ModelInfo").Name, "")
+//@ func (s *ModelDiscoveryService) applyModelFilter$1
+//@   property C10
+//@   pureresult
+//@   ensures res == itemName(item)
 
+//@ func (s *ModelDiscoveryService) applyModelFilter
+//@   property C20 C10
+//@   safety
+//@   requires s != nil && s.modelFilter != nil && (forall j int :: 0 <= j && j < len(models) ==> models[j] != nil)
+//@   requires filterConfig != nil ==> len(filterConfig.Include) < 1000000 && len(filterConfig.Exclude) < 1000000
+//@   modifies filter.GlobFilter.patternCache[all]
+//@   loop 1 invariant forall k int :: 0 <= k && k < len(filtered) ==> filtered[k] != nil && (exists j int :: 0 <= j && j < len(models) && models[j] == filtered[k]) && passes(filterConfig, filtered[k].Name)
+//@   loop 1 invariant forall j int :: 0 <= j && j < len(models) && passes(filterConfig, models[j].Name) ==> (exists a int :: 0 <= a && a < len(result.Accepted) && typeis(result.Accepted[a], "*domain.ModelInfo") && asType(result.Accepted[a], "*domain.ModelInfo") == models[j])
+//@   loop 1 invariant forall j int :: 0 <= j && j < i$1 && typeis(result.Accepted[j], "*domain.ModelInfo") ==> (exists k int :: 0 <= k && k < len(filtered) && filtered[k] == asType(result.Accepted[j], "*domain.ModelInfo"))
+//@   ensures regCalls == old(regCalls)
+//@   ensures res1 == nil ==> forall k int :: 0 <= k && k < len(res0) ==> res0[k] != nil && (exists j int :: 0 <= j && j < len(models) && models[j] == res0[k]) && passes(filterConfig, res0[k].Name)
+//@   ensures res1 == nil ==> forall j int :: 0 <= j && j < len(models) && passes(filterConfig, models[j].Name) ==> (exists k int :: 0 <= k && k < len(res0) && res0[k] == models[j])
+
+// C10 at the point where the listing is handed to the registry: unless the filter itself was rejected (err != nil:
+// the code then registers the unfiltered listing, "valid filter" is part of the property), what is registered is the
+// listing restricted to the names that pass the filter in force for this endpoint.
 //@ func (s *ModelDiscoveryService) DiscoverEndpoint
-//@   property C20
+//@   property C20 C10
 //@   safety
 //@   requires s != nil && s.client != nil && s.modelRegistry != nil && s.modelFilter != nil && endpoint != nil
+//@   requires forall c *domain.FilterConfig :: len(c.Include) < 1000000 && len(c.Exclude) < 1000000
 //@   modifies *
+//@   at call RegisterModelsWithEndpoint 1 assert forall k int :: 0 <= k && k < len(filteredModels) ==> (exists j int :: 0 <= j && j < len(models) && models[j] == filteredModels[k]) && (err == nil ==> passes(effFilter(s, endpoint), filteredModels[k].Name))
+//@   at call RegisterModelsWithEndpoint 1 assert err == nil ==> forall j int :: 0 <= j && j < len(models) && passes(effFilter(s, endpoint), models[j].Name) ==> (exists k int :: 0 <= k && k < len(filteredModels) && filteredModels[k] == models[j])
+//@   at call RegisterModels 1 assert forall k int :: 0 <= k && k < len(filteredModels) ==> (exists j int :: 0 <= j && j < len(models) && models[j] == filteredModels[k]) && (err == nil ==> passes(effFilter(s, endpoint), filteredModels[k].Name))
+//@   at call RegisterModels 1 assert err == nil ==> forall j int :: 0 <= j && j < len(models) && passes(effFilter(s, endpoint), models[j].Name) ==> (exists k int :: 0 <= k && k < len(filteredModels) && filteredModels[k] == models[j])
 //@   ensures res == nil ==> regCalls == old(regCalls) + 1
+//@   at return 4 assert sameSlice(regModels, filteredModels) && regURL == endpoint.URLString
 //@   ensures regCalls == old(regCalls) || regCalls == old(regCalls) + 1
